@@ -141,3 +141,17 @@ package bip39
 //@ func etCopyStr
 //@   ensures [E] ok_count_and_untouched: result == 200
 //@   ensures [E] bad_count: result == 300
+
+//@ func etSumVia
+//@   requires 0 <= n && n < 1000000
+//@   ensures [E] ok_closed_form: 2*result == n*(n-1)
+//@   ensures [E] bad_closed_form: 2*result == n*(n+1) && n > 0
+//@   loop 1 invariant ok_inv: 0 <= i && i <= n && 2*s == i*(i-1)
+//@   loop 1 decreases n - i
+
+//@ func etSumThenWipe
+//@   requires 0 <= n && n < 1000000
+//@   assigns BMem[buf]
+//@   ensures [E] ok_closed_form: 2*result == n*(n-1)
+//@   loop 1 invariant ok_inv: 0 <= i && i <= n && 2*s == i*(i-1)
+//@   loop 1 decreases n - i
